@@ -3,11 +3,14 @@
    Models (Model/Copula.v): indep / dep = Independent/DependentComponentsCopula.__call__ over a Num
    (here the reals), clayton = ClaytonCopula.__call__, margin / volume = the operators of
    levycopulamodel.py, clayton_cond / clayton_inv / clayton_xderiv2 = the 2-d conditional distribution,
-   its closed-form inverse and x_first_derivative.  Arguments are extended reals (ext R). *)
+   its closed-form inverse and x_first_derivative.  Arguments are extended reals (ext R).
+   Wave 5 (Model/CopulaX.v): clayton_xderiv = x_first_derivative in any dimension (zero entries included), clayton_cond_x = the
+   conditional distribution on the extended domain (x = +-inf, x = 0, eps = 0 with numpy's inf / power conventions). *)
 From Coq Require Import List Arith Bool Reals QArith.
 From Coquelicot Require Import Coquelicot.
-From RV Require Import Base.RB Base.ExtNum Model.Copula Proofs.C11_Copula Proofs.C11_Clayton Proofs.C11_Increasing Proofs.C11_Dep3
-  Proofs.C11_CondDist Proofs.C11_Mixed.
+From RV Require Import Base.RB Base.ExtNum Model.Copula Model.CopulaX Proofs.C11_Copula Proofs.C11_Clayton Proofs.C11_Increasing Proofs.C11_Dep3
+  Proofs.C11_CondDist Proofs.C11_Mixed Proofs.C11_Mixed3 Proofs.C11_CondX Proofs.C11_W5
+  Gen.GenC11Clayton Proofs.C11_Gen.
 Import ListNotations.
 Open Scope R_scope.
 
@@ -76,7 +79,8 @@ Theorem C11_conditional_inverse : forall th et, 0 < th -> 0 < et < 1 ->
 Proof. exact clayton_inverse. Qed.
 
 (* x_first_derivative, d = 2, all four open quadrants: the mixed partial derivative of the copula is
-   sign(u) sign(v) * x_first_derivative(u, v)  (clD1 is the first partial in v).  Full statement also for d = 3: finite differences only. *)
+   sign(u) sign(v) * x_first_derivative(u, v)  (clD1 is the first partial in v).  d = 3: C11_mixed_derivative_3d below.
+   `_partial` because the property's own wording ("times the product of its arguments") is false of the code: see the _refuted theorem. *)
 Theorem C11_mixed_derivative_partial : forall th et u v, 0 < th -> u <> 0 -> v <> 0 ->
   is_derive (fun y => clayton th et [Fin u; Fin y]) v (clD1 th et u v) /\
   is_derive (fun x => clD1 th et x v) u (sg u * sg v * clayton_xderiv2 th et u v).
@@ -87,6 +91,70 @@ Theorem C11_mixed_derivative_times_product_refuted :
   exists th et u v, 0 < th /\ 0 < et <= 1 /\ 0 < u /\ 0 < v /\
     clayton_xderiv2 th et u v = et * d2C th u v /\ clayton_xderiv2 th et u v <> u * v * (et * d2C th u v).
 Proof. exact clayton_xderiv2_times_product_refuted. Qed.
+
+(* ---- wave 5 ------------------------------------------------------------------------------------------------------ *)
+(* x_first_derivative, d = 3, all eight open octants: the THIRD mixed partial of the 3-d Clayton copula is
+   sign(u) sign(v) sign(w) * x_first_derivative([u, v, w])   (clD3_1 = dF/dw, clD3_2 = d2F/dv dw, closed forms in Proofs/C11_Mixed3.v);
+   it is non-negative for eta in [0,1] and positive for 0 < eta < 1 -- the differential form of 3-increasing inside an octant;
+   so the code's value has the sign of u v w (F-C11-1 also in d = 3). *)
+Theorem C11_mixed_derivative_3d : forall th et u v w, 0 < th -> u <> 0 -> v <> 0 -> w <> 0 ->
+  (is_derive (fun z => clayton th et [Fin u; Fin v; Fin z]) w (clD3_1 th et u v w) /\
+   is_derive (fun y => clD3_1 th et u y w) v (clD3_2 th et u v w) /\
+   is_derive (fun x => clD3_2 th et x v w) u (sg u * sg v * sg w * clayton_xderiv th et [u; v; w])) /\
+  (0 <= et <= 1 -> 0 <= sg u * sg v * sg w * clayton_xderiv th et [u; v; w]) /\
+  (0 < et < 1 -> 0 < sg u * sg v * sg w * clayton_xderiv th et [u; v; w]).
+Proof. exact w5_mixed_derivative_3d. Qed.
+
+(* the any-dimension model of x_first_derivative specialises to the d = 2 model used by C11_mixed_derivative_partial, and returns 0
+   as soon as one entry is 0 (the `np.any(u == 0)` branch), in every dimension *)
+Theorem C11_xderiv_dimension_link : forall th et,
+  (forall u v, u <> 0 -> v <> 0 -> clayton_xderiv th et [u; v] = clayton_xderiv2 th et u v) /\
+  (forall us, In 0 us -> clayton_xderiv th et us = 0).
+Proof. intros th et. split. apply clayton_xderiv_d2. apply clayton_xderiv_zero. Qed.
+
+(* the conditional distribution on the EXTENDED domain: x in {-inf} u R u {+inf}, every real eps -- eps = 0 included; only the
+   pair (eps, x) = (0, 0), where the code evaluates 0/0 = nan, is excluded (cond_defined).  Every theta > 0, every eta in [0,1]:
+   (1) on finite x <> 0, eps <> 0 it is the finite model of C11_conditional_distribution;  (2) exact values: 1 at +inf, 0 at -inf
+   (every eps), the unit step for eps = 0, the plateau 1-eta / eta at x = 0;  (3) range [0,1];  (4) non-decreasing on the whole
+   extended line (through 0 and up to +-inf);  (5) the values at +-inf are the limits of the finite values (every eps, every eta in
+   [0,1]) and the value at 0 is the two-sided limit (continuity at 0, eps <> 0). *)
+Theorem C11_conditional_distribution_extended : forall th et, 0 < th -> 0 <= et <= 1 ->
+  (forall eps x, eps <> 0 -> x <> 0 -> clayton_cond_x th et eps (Fin x) = clayton_cond th et eps x) /\
+  (forall eps, clayton_cond_x th et eps PInf = 1 /\ clayton_cond_x th et eps NInf = 0) /\
+  (forall x, x <> 0 -> clayton_cond_x th et 0 (Fin x) = if Rltb x 0 then 0 else 1) /\
+  (forall eps, clayton_cond_x th et eps (Fin 0) = if Rleb 0 eps then 1 - et else et) /\
+  (forall eps x, cond_defined eps x = true -> 0 <= clayton_cond_x th et eps x <= 1) /\
+  (forall eps x y, cond_defined eps x = true -> cond_defined eps y = true -> @xleb RNum x y = true ->
+     clayton_cond_x th et eps x <= clayton_cond_x th et eps y) /\
+  (forall eps, is_lim (fun x => clayton_cond_x th et eps (Fin x)) p_infty (clayton_cond_x th et eps PInf) /\
+               is_lim (fun x => clayton_cond_x th et eps (Fin x)) m_infty (clayton_cond_x th et eps NInf)) /\
+  (forall eps, eps <> 0 -> is_lim (fun x => clayton_cond_x th et eps (Fin x)) 0 (clayton_cond_x th et eps (Fin 0))).
+Proof. exact w5_conditional_distribution_extended. Qed.
+
+(* the source text of _condition_distribution_2d and _inverse_conditional_distribution_2d, translated by py2coq on every run
+   (Gen/GenC11Clayton.v: gen_clayton_cond, gen_clayton_inv), IS the pair of hand models the theorems above are about -- equality for
+   ALL arguments -- and it agrees with the extended model on finite non-zero arguments; the left / right inverse and the
+   distribution-function facts restated on the generated definitions *)
+Theorem C11_generated_models : forall th et, 0 < th ->
+  (forall eps x, gen_clayton_cond th et eps x = clayton_cond th et eps x) /\
+  (forall eps u, gen_clayton_inv th et eps u = clayton_inv th et eps u) /\
+  (forall eps x, eps <> 0 -> x <> 0 -> clayton_cond_x th et eps (Fin x) = gen_clayton_cond th et eps x) /\
+  (0 < et < 1 -> forall eps x, eps <> 0 -> x <> 0 -> gen_clayton_inv th et eps (gen_clayton_cond th et eps x) = x) /\
+  (0 < et < 1 -> forall eps u, eps <> 0 -> 0 < u < 1 -> u <> (if Rleb 0 eps then 1 - et else et) ->
+     gen_clayton_cond th et eps (gen_clayton_inv th et eps u) = u) /\
+  (0 <= et <= 1 -> forall eps x y, eps <> 0 -> x <> 0 -> y <> 0 -> x <= y ->
+     0 <= gen_clayton_cond th et eps x /\ gen_clayton_cond th et eps x <= gen_clayton_cond th et eps y /\ gen_clayton_cond th et eps y <= 1).
+Proof. exact gen_clayton_facts. Qed.
+
+(* non-vacuity of the wave-5 theorems: a mixed-sign octant with 0 < eta < 1 (all hypotheses of C11_mixed_derivative_3d hold and the
+   code's value is strictly NEGATIVE there while the mixed partial is positive); the extended conditional distribution at
+   eps = 0 and at x = +-inf, x = 0 takes the four distinct values 0, 1, 1 - eta, eta *)
+Example C11_nonvacuous_w5 :
+  (0 < 2 /\ 0 < / 4 < 1 /\ -1 <> 0 /\ 2 <> 0 /\ 3 <> 0 /\ clayton_xderiv 2 (/ 4) [-1; 2; 3] < 0) /\
+  (cond_defined 0 (Fin 5) = true /\ clayton_cond_x 2 (/ 4) 0 (Fin 5) = 1 /\ clayton_cond_x 2 (/ 4) 0 (Fin (-5)) = 0) /\
+  (clayton_cond_x 2 (/ 4) 3 (Fin 0) = 1 - / 4 /\ clayton_cond_x 2 (/ 4) (-3) (Fin 0) = / 4 /\
+   clayton_cond_x 2 (/ 4) (-3) PInf = 1 /\ clayton_cond_x 2 (/ 4) 0 NInf = 0).
+Proof. exact w5_nonvacuous. Qed.
 
 (* non-vacuity: the Q instances of the same definitions evaluate *)
 Open Scope Q_scope.
@@ -105,4 +173,9 @@ Print Assumptions C11_conditional_distribution.
 Print Assumptions C11_conditional_inverse.
 Print Assumptions C11_mixed_derivative_partial.
 Print Assumptions C11_mixed_derivative_times_product_refuted.
+Print Assumptions C11_mixed_derivative_3d.
+Print Assumptions C11_xderiv_dimension_link.
+Print Assumptions C11_conditional_distribution_extended.
+Print Assumptions C11_generated_models.
+Print Assumptions C11_nonvacuous_w5.
 Print Assumptions C11_nonvacuous.
